@@ -71,6 +71,7 @@ func cmdRun(args []string) int {
 	maxSteps := fs.Int("max-steps", 2000000, "max instructions per path")
 	maxPaths := fs.Int("max-paths", 0, "abort after this many paths (0 = unlimited)")
 	deadline := fs.Duration("deadline", 0, "overall deadline")
+	bytesMode := fs.Bool("bytes", false, "strings are byte strings 0..255; range/WriteRune/utf8.ValidString follow UTF-8")
 	out := fs.String("out", "", "write JSON result here")
 	solver := fs.String("solver", "z3", "z3|z3new|cvc5")
 	solver2 := fs.String("fallback", "cvc5", "fallback solver on unknown (empty = none)")
@@ -110,6 +111,7 @@ func cmdRun(args []string) int {
 	}
 	cfg := sym.Config{Unwind: *unwind, MaxSteps: *maxSteps, MaxPaths: *maxPaths, MaxDelays: *delays, Jobs: *jobs,
 		ExecPrefixes: []string{"github.com/ErdemOzgen/blackdagger"}, TraceInstr: *trace, PollUnwind: *poll, StopAtFirst: *stopFirst, ConcreteClock: *cclock, UnwindCut: *ucut}
+	sym.ByteMode = *bytesMode
 	if *deadline > 0 {
 		cfg.Deadline = time.Now().Add(*deadline)
 	}
